@@ -501,6 +501,10 @@ def process(ctx, texts, all_indents=True):
 # (`deep_nesting`); where both sides succeed the round trip and the correspondence with the model are checked as usual.
 
 DEEP_DEPTHS = (50, 100, 150, 200, 250, 300, 400, 1000)
+# depths at which printing MUST work (about half of the smallest failing depth measured on /repo HEAD: selection sets and
+# inline fragments fail from ~170 levels, object values ~200, list values ~250, list types ~300): a RecursionError there is
+# NOT the known scale limit R7 but a regression, and gets its own signature (a VIOLATION, never a KNOWN-FINDING)
+DEEP_MUST_WORK = 100
 DEEP_POSITIONS = {
     "selection-set": ("document", lambda n: "{a" * n + "}" * n),
     "inline-fragment": ("document", lambda n: "{" + "...{" * n + "a" + "}" * n + "}"),
@@ -568,6 +572,10 @@ def run_deep(ctx):
                     corr.append((text, 2, True, entry))
             elif out.startswith("parse:"):
                 continue                      # not a parser-produced tree (C01: P1 for RecursionError)
+            elif out in ("print:RecursionError", "reparse:RecursionError") and n <= DEEP_MUST_WORK:
+                ctx.fail("%s:RecursionError:shallow-nesting:%s" % ("print-raises" if out.startswith("print") else "reparse-raises", pos),
+                         "print_ast / the re-parse raises RecursionError on a parser-produced tree only %d levels deep "
+                         "(the known scale limit R7 starts at ~170 levels)" % n, detail)
             elif out in ("print:RecursionError", "reparse:RecursionError"):
                 sig = "%s:RecursionError:depth:%s" % ("raises" if out.startswith("print") else "reparse-raises", pos)
                 if sig not in reported:
